@@ -122,7 +122,10 @@ class FGen:
             ops = ["<", "<=", ">", ">=", "=="] + (["!="] if self.neq else [])
             return ["cmp", rng.choice(ops), self.num_expr(sc, max(d - 1, 0)), self.num_expr(sc, max(d - 1, 0))]
         if r < 0.75:
-            return ["and", self.bool_expr(sc, d - 1), self.bool_expr(sc, d - 1)]
+            a, b = self.bool_expr(sc, d - 1), self.bool_expr(sc, d - 1)
+            if rng.random() < 0.4:
+                a = ["or", a, self.bool_expr(sc, 0)]       # '(a or b) and c': needs its parentheses
+            return ["and", a, b] if rng.random() < 0.5 else ["and", b, a]
         if r < 0.88:
             return ["or", self.bool_expr(sc, d - 1), self.bool_expr(sc, d - 1)]
         if r < 0.95:
@@ -239,6 +242,27 @@ class FGen:
                                    ["+", ["*", ["num", 0.5], ["var", "k1"]], ["*", ["num", 0.5], ["var", "k2"]]]])
                 ops.append(["assign", tgt, None, ["+", ["var", y], ["*", ["var", "<dt>"], comb]], [], 0])
                 sc["uts"][tgt] = tid
+                continue
+            if self.memory_bias and rng.random() < 0.07:
+                # counted loop around user-type calls: 'acc <- rhs(t + c*i, rhs(t, y)) [i=0..n]' -- the call
+                # temporaries made by the passes are first mentioned INSIDE the loop body
+                tid = VT
+                same = [u for u, t in sc["uts"].items() if t == tid]
+                u = rng.choice(same)
+                lhs = rng.choice(["u", "v", "ytmp", "acc"])
+                if lhs in sc["nums"] or lhs in sc["bools"] or lhs in sc["arrs"]:
+                    continue
+                c = rng.choice(["i", "j"])
+                tt = ["+", ["var", "<t>"], ["*", ["num", rng.choice([0.25, 0.5])], ["var", c]]]
+                q = rng.random()
+                inner = (["call", "<func>rhs", [["var", "<t>"], ["var", u]], {}] if q < 0.5 else
+                         ["var", lhs] if (q < 0.7 and sc["uts"].get(lhs) == tid) else
+                         ["+", ["var", u], ["*", ["var", c], ["var", rng.choice(same)]]])
+                rhs = ["call", "<func>rhs", [tt, inner], {}]
+                if rng.random() < 0.3:
+                    rhs = ["+", ["var", u], ["*", ["num", 0.5], rhs]]
+                ops.append(["assign", lhs, None, rhs, [[c, ["num", 0], ["num", rng.choice([1, 2, 3])]]], 0])
+                sc["uts"][lhs] = tid
                 continue
             if self.memory_bias and rng.random() < 0.45:
                 r = 0.3 + 0.25 * rng.random()     # user-type traffic
@@ -462,6 +486,15 @@ class FGen:
                 sc["arrs"][a] = persist["arrlen"][a]
             budget = [rng.randint(2, self.max_ops)]
             body += self.body(sc, persist, names, name, budget, 0, False)
+            if rng.random() < 0.2:
+                # expression grid: many independent results of boolean / arithmetic expression shapes, observed
+                # after every run call (the valuation of the atoms changes from step to step with <state>s, <t>)
+                for k in range(rng.randint(4, 10)):
+                    if rng.random() < 0.7:
+                        e = ["if", self.bool_expr(sc, rng.choice([1, 2, 2, 3])), ["num", 1.5], ["num", -2]]
+                    else:
+                        e = self.num_expr(sc, 3)
+                    body.append(["assign", f"<p>g{pi}_{k}", None, e, [], self.s(e)])
             # kinds of persistent state must be inferable: whole-variable assignments
             body.append(["assign", "<state>s", None, ["+", ["var", "<state>s"], ["var", "<dt>"]], [], 0])
             k = self.fresh("kk") if rng.random() < 0.5 else rng.choice(["k1", "k2", "u"])
@@ -780,6 +813,10 @@ def compare_with_interpreter(steps, ref, dag, script):
         for name, fv in sorted(fs["vars"].items()):
             iv = rs["persist"].get(name)
             if fv is None and iv is None:
+                continue
+            if iv is None and isinstance(fv, float):
+                # a scalar the interpreter has not assigned yet (its phase has not run / the step was cut
+                # short): Fortran scalars always have storage, there is nothing to compare
                 continue
             if fv is None or iv is None:
                 return ("persistent-variable-unset", f"after run call {i + 1}: {name}: Fortran "
